@@ -234,6 +234,7 @@ def make_env_fn(kind, log):
             self._t = 0
             self._len = 4
             self.reset_seeds = []
+            self.reset_options = []
             self.actions = []
             if kind in ("discrete", "dictd"):
                 self.action_space = spaces.Discrete(3)
@@ -263,6 +264,7 @@ def make_env_fn(kind, log):
         def reset(self, *, seed=None, options=None):
             super().reset(seed=seed)
             self.reset_seeds.append(seed)
+            self.reset_options.append(options)
             self._t = 0
             self._len = int(self.np_random.integers(2, 7))
             self._goal = self.np_random.uniform(-1, 1, 2).astype(np.float32)
@@ -788,7 +790,11 @@ def run_once(cfg, seed, conf=None):
         import torch as th
 
         init_seed = th.initial_seed()
+        if cfg.get("options"):
+            # reset options pending at the same reset as the seeds registered by Algo(..., seed=s)
+            m.get_env().set_options(dict(cfg["options"]))
         m.learn(total_timesteps=cfg["total"])
+        pass
         if cfg.get("learn_twice"):
             m.learn(total_timesteps=cfg["total"] // 2, reset_num_timesteps=False)  # continues: no reset, no re-seeding
         envs = sorted(logs, key=lambda e: e.idx)[: cfg["n_envs"]]
@@ -796,7 +802,7 @@ def run_once(cfg, seed, conf=None):
         m.get_env().reset()  # a second explicit reset: must not deliver the seeds again
     conf_after = conf_fingerprint(conf)
     return {"conf_before": conf_before, "conf_after": conf_after, "fp": fp, "entropy": mon.entropy, "setup_calls": setup_calls, "all_seed_calls": mon.seed_calls, "torch_initial_seed": init_seed,
-            "reset_seeds": [list(e.reset_seeds) for e in envs]}
+            "reset_seeds": [list(e.reset_seeds) for e in envs], "reset_options": [list(e.reset_options) for e in envs]}
 
 
 CONFIGS = [
@@ -831,6 +837,10 @@ CONFIGS = [
     dict(algo="sac", env="goal", n_envs=1, total=40, her=True, her_strategy="future", copy_info_dict=True, learning_starts=16),
     dict(algo="td3", env="continuous", n_envs=2, total=24, noise="normal", learn_twice=True),
     dict(algo="a2c", env="discrete", n_envs=1, total=20, learn_twice=True),
+    # reset options pending together with the seeds (VecEnv.set_options before learn): seeds must still be delivered
+    dict(algo="ppo", env="continuous", n_envs=2, total=32, options={"difficulty": 3}),
+    dict(algo="sac", env="continuous", n_envs=1, total=28, learning_starts=10, options={"x_init": 0.5, "y_init": [1, 2]}),
+    dict(algo="dqn", env="discrete", n_envs=2, total=40, options={"start": "left"}),
 ]
 
 
@@ -924,6 +934,11 @@ def main():
             if not seeds or seeds[0] != s1 + i or any(x is not None for x in seeds[1:]):
                 probs.append(("env-seed-delivery", f"{cfg['algo']}: sub-env {i} received reset seeds {seeds[:6]}, expected [{s1 + i}, None, None, ...]"))
                 break
+        if cfg.get("options"):
+            for i, opts in enumerate(a["reset_options"]):
+                if not opts or opts[0] != cfg["options"] or any(o for o in opts[1:]):
+                    probs.append(("env-options-delivery", f"{cfg['algo']}: sub-env {i} received reset options {opts[:4]}, expected [{cfg['options']}, None, ...]"))
+                    break
         # model: same op history (one Reset, then the observed automatic resets)
         n = cfg["n_envs"]
         autos = [f"AutoReset {coq_nat(i)}" for i, seeds in enumerate(a["reset_seeds"]) for _ in range(min(max(len(seeds) - 2, 0), 40))]
@@ -964,7 +979,7 @@ def main():
     chk.notes["noise_correspondence"] = noise_stats
     chk.coverage["evaluations"] = 3 * pairs + len(sites) + noise_stats["cases"]
     chk.coverage["traces_validated_against_impl"] = 3 * pairs
-    chk.coverage["distinct_nontrivial"] = sum(1 for c in cfgs if c["n_envs"] >= 2 or c.get("her") or c.get("use_sde") or c.get("noise") or c.get("vecnormalize") or c.get("reseed") or c.get("learn_twice") or c.get("optimize_memory"))
+    chk.coverage["distinct_nontrivial"] = sum(1 for c in cfgs if c["n_envs"] >= 2 or c.get("her") or c.get("use_sde") or c.get("noise") or c.get("vecnormalize") or c.get("reseed") or c.get("learn_twice") or c.get("optimize_memory") or c.get("options"))
     chk.coverage["rule"] = ("paired runs (same seed twice, one different seed) of tiny learn() calls; non-trivial = more than one sub-env or an extra randomness consumer (gSDE resampling, action noise, HER, "
                             "VecNormalize); evaluations = runs + scanned call sites")
     chk.notes["explanation"] = (f"Category other: seed-plumbing and action-noise theorems in Coq ({chk.coverage.get('obligations', 0)}, axiom-free) + ast call-site scan judged by Model.Seeding.scan_ok + paired-run search with an entropy monitor. "
